@@ -303,6 +303,7 @@ fn alphabet(s: Size, counter: &mut u64) -> Vec<GOp> {
     ops.push(GOp::Set(0, 0, fresh(counter, 1)[0], true));
     ops.push(GOp::Set(s.r, 0, fresh(counter, 1)[0], false));
     ops.push(GOp::Set(0, s.c, fresh(counter, 1)[0], true));
+    ops.push(GOp::Set(0, s.c, fresh(counter, 1)[0], false));
     ops.push(GOp::MapMut(1000));
     ops.push(GOp::MapMutWithIndex(100));
     ops
@@ -354,7 +355,7 @@ fn gen_exhaustive(g: &mut Gen) {
     } else {
         let mut idx: Vec<usize> = (0..total).collect();
         g.rng.shuffle(&mut idx);
-        idx.truncate(700);
+        idx.truncate(2500);
         idx
     };
     g.count_n("exhaustive.len3.prefixes_total", total as u64);
@@ -374,6 +375,24 @@ fn gen_exhaustive(g: &mut Gen) {
             count_op(g, &op3, s2, "exh");
             g.op(format!("try {}", op3.line()));
         }
+    }
+}
+
+/// a slice that accepts at least one index below `n` (n >= 1)
+fn friendly_slice(g: &mut Gen, n: usize) -> Sl {
+    match g.rng.below(8) {
+        0 | 1 => Sl::All,
+        2 => Sl::Single(g.rng.below(n)),
+        3 => {
+            let a = g.rng.below(n);
+            let b = if g.rng.chance(1, 5) { usize::MAX } else { g.rng.range(a + 1, n + 1) };
+            Sl::Range(a, b)
+        }
+        4 if n > 1 => Sl::Not(Box::new(Sl::Single(g.rng.below(n)))),
+        5 => Sl::Or(Box::new(Sl::Single(g.rng.below(n))), Box::new(random_slice(g, n, 1))),
+        6 => Sl::And(Box::new(Sl::Range(0, n)), Box::new(friendly_slice(g, n))),
+        7 => Sl::Not(Box::new(Sl::Not(Box::new(friendly_slice(g, n))))),
+        _ => Sl::Range(0, g.rng.range(1, n + 1)),
     }
 }
 
@@ -406,7 +425,7 @@ fn random_slice(g: &mut Gen, n: usize, depth: usize) -> Sl {
 
 /// mostly an index inside `0..n`; sometimes `n`, `n+1`, `usize::MAX`
 fn pick_index(g: &mut Gen, n: usize) -> usize {
-    match g.rng.below(12) {
+    match g.rng.below(24) {
         0 => n,
         1 => n + 1,
         2 => usize::MAX,
@@ -452,10 +471,15 @@ fn random_op(g: &mut Gen, s: Size, counter: &mut u64) -> GOp {
         4 => GOp::RemoveRow(pick_index(g, s.r)),
         5 => GOp::RemoveColumn(pick_index(g, s.c)),
         6 | 7 => {
-            let depth = g.rng.below(3);
-            let rs = random_slice(g, s.r, depth);
-            let depth = g.rng.below(3);
-            let cs = random_slice(g, s.c, depth);
+            // mostly retentions that keep something; one in four from the arbitrary stream
+            let (rs, cs) = if g.rng.chance(3, 4) {
+                (friendly_slice(g, s.r), friendly_slice(g, s.c))
+            } else {
+                let depth = g.rng.below(3);
+                let rs = random_slice(g, s.r, depth);
+                let depth = g.rng.below(3);
+                (rs, random_slice(g, s.c, depth))
+            };
             GOp::Retain(g.rng.chance(1, 2), rs, cs)
         }
         8 | 9 => GOp::Transpose,
@@ -467,7 +491,7 @@ fn random_op(g: &mut Gen, s: Size, counter: &mut u64) -> GOp {
 }
 
 fn gen_random(g: &mut Gen) {
-    let cases = if g.thorough { 3000 } else { 250 };
+    let cases = if g.thorough { 3000 } else { 600 };
     for _ in 0..cases {
         let r = g.rng.range(1, 4);
         let c = g.rng.range(1, 4);
@@ -759,8 +783,8 @@ impl Runner {
             None => return "no-matrix".into(),
         };
         if toks[0] == "try" {
-            // the operation on a clone (built from the observable contents, so that it can be
-            // made even of a matrix whose invariant is already broken)
+            // the operation on a clone: the matrix itself is left as it is (a matrix whose
+            // invariant is already broken cannot be cloned; that state was reported earlier)
             let mut copy = match catch(|| m.clone()) {
                 Ok(c) => c,
                 Err(k) => return format!("clone-panicked {}", k.as_str()),
